@@ -6,6 +6,7 @@ import (
 	"net/http"
 	"os"
 	"path/filepath"
+	"sort"
 	"strings"
 
 	"github.com/getkin/kin-openapi/openapi3"
@@ -114,6 +115,16 @@ func schema(v *vector) []event {
 				Body: io.NopCloser(strings.NewReader(x.Resp.Body)), Options: opts}
 			if err := openapi3filter.ValidateResponse(context.Background(), rin); err != nil {
 				ev["resp"], ev["rerr"] = "invalid", trunc(err.Error())
+				// facts about the exchange and the document that locate the disagreement
+				ev["respCT"] = mediaType(h.Get("Content-Type"))
+				cts := []string{}
+				if r := route.Operation.Responses.Status(x.Resp.Status); r != nil && r.Value != nil {
+					for ct := range r.Value.Content {
+						cts = append(cts, ct)
+					}
+				}
+				sort.Strings(cts)
+				ev["docCTs"] = cts
 			} else {
 				ev["resp"] = "ok"
 			}
@@ -135,6 +146,13 @@ func addHeader(h http.Header, k string, vs []string) {
 	for _, s := range vs {
 		h.Add(k, s)
 	}
+}
+
+func mediaType(ct string) string {
+	if i := strings.Index(ct, ";"); i >= 0 {
+		ct = ct[:i]
+	}
+	return strings.ToLower(strings.TrimSpace(ct))
 }
 
 type panicErr struct{ v any }
